@@ -74,8 +74,8 @@ mutual
 /-- `validV k v`: `v` is a value the Go field of kind `k` can hold and that the property quantifies
     over: numbers within their width, durations that are whole non-negative milliseconds, lengths
     below 2^63, no nil element inside a sequence or map, distinct map keys, an Interest name that
-    does not already end in a parameters digest, no signature value (the plain `Encode()` does not
-    write one). -/
+    does not already end in a parameters digest; a signature field is either absent (the plain
+    `Encode()` does not write one) or holds the signature bytes the caller supplies (signing path). -/
 def validV : Kind → Val → Bool
   | .natural o, .absent => o
   | .natural _, .nat n => decide (n < 2 ^ 64)
@@ -101,6 +101,7 @@ def validV : Kind → Val → Bool
   | .map kk _ vk, .map kvs => validPairs kk vk kvs && keysDistinct kvs
   | .marker, .absent => true
   | .signature, .absent => true
+  | .signature, .bytes b => decide (b.length < maxLen)
   | _, _ => false
 def validVs : Fields → Vals → Bool
   | .nil, .nil => true
